@@ -10,10 +10,15 @@ EXTENDS Integers, Sequences, FiniteSets
 Abs(x) == IF x < 0 THEN -x ELSE x
 TimeCols == {"offset", "length"}
 
+(* projected values stay far inside 32 bits on charts of the modelled size; a value outside (only a wrong result can *)
+(* be that large) fails the comparison instead of overflowing TLC's integers                                         *)
+Safe(a, ka, b, kb) ==
+    /\ Abs(a) <= 2147483647 \div ka /\ Abs(b) <= 2147483647 \div kb
+    /\ ((a >= 0 /\ b >= 0) \/ (a <= 0 /\ b <= 0) \/ (Abs(a) <= 1000000000 \div ka /\ Abs(b) <= 1000000000 \div kb))
 (* b = a / r within one unit *)
-DivNear(a, b, rn, rd) == Abs(b * rn - a * rd) <= rn
+DivNear(a, b, rn, rd) == Safe(b, rn, a, rd) /\ Abs(b * rn - a * rd) <= rn
 (* b = a * r within one unit *)
-MulNear(a, b, rn, rd) == Abs(b * rd - a * rn) <= rd
+MulNear(a, b, rn, rd) == Safe(b, rd, a, rn) /\ Abs(b * rd - a * rn) <= rd
 
 RowRated(a, b, rn, rd) ==
     /\ b.x = a.x /\ DOMAIN b.v = DOMAIN a.v
